@@ -33,6 +33,19 @@ PROPS = {
         "thorough": {"seeds": 6000, "chunk": 100, "wall_s": 1800},
         "gc_off": False,
     },
+    "C15": {
+        "level": "exploration",
+        "technique": "deterministic simulation: seeded op/reopen tapes on the real RocksDB-backed raft log store vs map model, ddmin-minimised replayable tapes",
+        "design_ref": "DESIGN.md §7 C15",
+        "level_text": "Seeded exploration: generated StoreLog/StoreLogs/GetLog/DeleteRange/FirstIndex/LastIndex/Set/Get/SetUint64/GetUint64/close+reopen sequences on the real consensus.raftLog compared after every operation with a map model (indexes around 0, 1, 2^32, 2^63 and 2^64-40; all LogTypes; payloads 0-64KB; Extensions). The same store is also exercised organically as the log of every simulated cluster node (C05-C09).",
+        "level_note": "Trusted: the map model, RocksDB itself. Crash model is close+reopen.",
+        "rule": "one evaluation = one seeded tape (12-62 ops quick, 40-400 thorough); distinct = distinct tapes; non-trivial = at least 3 reads/deletes that touched stored entries",
+        "components": ["raftlog"],
+        "assumptions": ["process-crash model only: no torn or lost writes below the RocksDB C API", "the map model is the specification"],
+        "quick": {"seeds": 400, "chunk": 25, "wall_s": 240},
+        "thorough": {"seeds": 6000, "chunk": 100, "wall_s": 1800},
+        "gc_off": False,
+    },
 }
 
 # Properties not (yet) claimed; each is removed from here by being added to PROPS.
